@@ -19,7 +19,7 @@
 (***************************************************************************)
 EXTENDS Obs
 
-PInit == [prev |-> <<>>, have |-> FALSE, sawSwitch |-> FALSE, info101 |-> FALSE]
+PInit == [prev |-> <<>>, have |-> FALSE, sawSwitch |-> FALSE, info101 |-> FALSE, wsSent |-> 0, wsDel |-> 0]
 
 ExpVer(o, a) == Req(o, a).c.ver
 Summary(o) ==
@@ -49,6 +49,12 @@ Clauses(o, ev, o2, p) ==
                           o.cfg.opening \o "/response-protocol")>>
       [] ev.e = "app_recv" /\ ev.type = "http.request" ->
             IF ev.match /\ ev.off = App(o, ev.app).recvd THEN <<>> ELSE <<F("bytes-lost", "body-bytes")>>
+      [] ev.e = "quiescent" /\ ~o.final ->
+            \* (a message written right behind the handshake: the connection is refused, or it arrives)
+            IF o.cfg.opening = "ws" /\ p.sawSwitch /\ Connected(o) /\ ~o.paused /\ ~o.cerr /\ p.wsDel < p.wsSent
+                   /\ \E a \in DOMAIN o.apps : /\ App(o, a).kind = "websocket" /\ App(o, a).parked = "recv"
+                                                /\ App(o, a).disc = 0 /\ Wire(o, a).ends = 0
+                THEN <<F("bytes-lost", "ws/message-behind-handshake")>> ELSE <<>>
       [] ev.e = "quiescent" /\ o.final ->
             LET Lost(a) == /\ Req(o, a).known /\ Req(o, a).head /\ ~Req(o, a).bad /\ Req(o, a).kind \in {"http", "ws"}
                            /\ ~o.cerr /\ ~Req(o, a).rst
@@ -66,7 +72,10 @@ Clauses(o, ev, o2, p) ==
       [] OTHER -> <<>>
 
 PStep(p, o, ev, o2) ==
-    CASE ev.e = "variant" -> [prev |-> Summary(o), have |-> TRUE, sawSwitch |-> FALSE, info101 |-> FALSE]
+    CASE ev.e = "variant" -> [prev |-> Summary(o), have |-> TRUE, sawSwitch |-> FALSE, info101 |-> FALSE,
+                              wsSent |-> 0, wsDel |-> 0]
+      [] ev.e = "c_ws" /\ ev.kind \in {"text", "bytes"} -> [p EXCEPT !.wsSent = @ + 1]
+      [] ev.e = "app_recv" /\ ev.type = "websocket.receive" -> [p EXCEPT !.wsDel = @ + 1]
       [] ev.e = "wire" /\ ev.kind = "switch" -> [p EXCEPT !.sawSwitch = TRUE]
       [] OTHER -> p
 
